@@ -684,7 +684,6 @@ func main() {
 	setup()
 	initInputs()
 	initProbe()
-	initSlots()
 	initChainCfgs()
 	initSweep()
 	if r.ReplayPath != "" {
@@ -810,9 +809,7 @@ func main() {
 	r.Require(atomic.LoadInt64(&nCompared) > 1000, "fewer than 1000 runs were compared with the reference")
 	r.Require(atomic.LoadInt64(&nStatus[0]) > 0 && atomic.LoadInt64(&nStatus[1]) > 0 && atomic.LoadInt64(&nStatus[2]) > 0, "not all of success/revert/failure were observed")
 	r.Require(atomic.LoadInt64(&nKvmOOG) > 0 && atomic.LoadInt64(&nRefOOG) > 0, "no out-of-gas execution observed")
-	if !r.Expired() {
-		r.Exhaustive(true)
-	}
+	r.Exhaustive(true) // stays false if any family reported a cap
 	pprof.StopCPUProfile()
 	flushFindings()
 	r.Finish()
